@@ -36,7 +36,9 @@ BOUNDS = {
     'thorough': 'adds flat3, mgr1x2, mgr2x2, trees map3/nested_map, <=3 deviations on the small scenarios, line level '
                 'with <=2 deviations',
 }
-OUTSIDE = ('more than 3 workers per node, depth > 2, pre-emption inside a bytecode, COMMUNICATE and LOG traffic, '
+OUTSIDE = ('start-up and shut-down wiring (spawn_workers / connect_to_managers / the id ranges handed to managers: the '
+           'simulator wires the employee tables itself - a seeded change there, C07b, is not caught); '
+           'more than 3 workers per node, depth > 2, pre-emption inside a bytecode, COMMUNICATE and LOG traffic, '
            'schedules further than K deviations from the baseline')
 
 
